@@ -284,6 +284,12 @@ JOBS = [
          specs=['accumulator_dist_add_to_1d_distribution', 'accumulate'], entry='h_accumulator_dist_add_to_1d_distribution', enforce='accumulator_dist_add_to_1d_distribution',
          replace=['accumulate'], structs=[dict(cls='distribution_parameters', vec=True), dict(cls='accumulator', cls_targs=['double', '1'], cname='accumulator_dist')],
          preludes=['opaque.h'], globals=_DGHOSTS, defines=['VP_NMAX=1048576', 'VP_BINSMAX=1048576'], props=['C11', 'C06', 'C14'], thorough_reals=['float']),
+    dict(name='dist2d', functions=['accumulator_dist_add_to_2d_distribution', 'accumulate', 'distribution_parameters_x_min', 'distribution_parameters_bin_size_x', 'distribution_parameters_bins_x',
+                                    'distribution_parameters_y_min', 'distribution_parameters_bin_size_y', 'distribution_parameters_bins_y'],
+         specs=['accumulator_dist_add_to_2d_distribution', 'accumulate'], entry='h_accumulator_dist_add_to_2d_distribution', enforce='accumulator_dist_add_to_2d_distribution',
+         replace=['accumulate'], structs=[dict(cls='distribution_parameters', vec=True), dict(cls='accumulator', cls_targs=['double', '1'], cname='accumulator_dist')],
+         preludes=['opaque.h'], globals=_DGHOSTS, defines=['VP_NMAX=1048576', 'VP_BINSMAX=1024', 'VP_AT_ASSUME'], props=['C11', 'C06', 'C14'],
+         assumptions=['2-d cell index inside the block (non-linear): proved over the integers in job int_lemmas (L-cell-index) and assumed at the at() calls of add_to_2d_distribution']),
     dict(name='refine_weights', functions=['multi_channel_refine_weights'], entry='h_multi_channel_refine_weights',
          enforce='multi_channel_refine_weights', replace=['vp_pow'], af=['multi_channel_refine_weights'], globals='T vp_g_s1, vp_g_s2; _Bool vp_g_nodata;',
          defines=['VP_NMAX=1048576'], props=['C08'], thorough_reals=['float'],
